@@ -610,7 +610,7 @@ def directed(prop):
         out.append(dict(tests=tests2, retries=1, delay_ms=0, backoff="fixed", failfast="noff", threads=8, filter=None,
                         run_ignored="default", sigint_at=None, priorities=None,
                         groups=dict(name="g1", max_threads=1, members="_b", heavy="t01_b", heavy_weight=8)))
-    if prop in ("C10", "C07"):
+    if prop in ("C10", "C07", "C02", "C01"):
         # an attempt that fails *after* the cancellation request has already reached its unit
         tests = [dict(bin="alpha::t1", name="t00_a", ignored=False, attempts=[{"sleep": 0.1, "exit": 1}],
                       expect=["fail"], mode="fail"),
